@@ -26,7 +26,7 @@ from props.parts import sendflow, counts, recvflow  # noqa: E402
 
 B = common.coq_bool
 LOCKED_PREFIXES = ("prio.", "send.", "recv.", "counts.", "store.", "stream.", "inner.", "queue.")
-HANDOVER = {"prio.buffer_pending", "prio.reclaim_written", "prio.stage", "prio.reclaim", "prio.push_back", "prio.clear_queue",
+HANDOVER = {"prio.drop_promised", "prio.buffer_pending", "prio.reclaim_written", "prio.stage", "prio.reclaim", "prio.push_back", "prio.clear_queue",
             "prio.clear_in_flight", "prio.pop_data", "prio.send_data", "store.slot", "store.free", "codec.data_done",
             "codec.buffer_data", "prio.pop_scheduled_reset"}
 
@@ -176,6 +176,10 @@ def handover_labels(evs, final_snap=None):
             cq = n if nm == "prio.clear_queue" else next((k for k in n.kids if k.name == "prio.clear_queue"), None)
             if cq is None:
                 return
+            # promised streams whose PUSH_PROMISE is dropped with this queue lose their own queue on the spot (repair cc6ac6c of /repo)
+            for dp in (k for k in cq.kids if k.name == "prio.drop_promised"):
+                if dp.args[0] in slot_of:
+                    add("HClear %s" % key(*slot_of[dp.args[0]]))
             cf = next((k for k in cq.kids if k.name == "prio.clear_in_flight"), None)
             if cf is None:
                 add("HUnexpected_clear_without_in_flight_event")
